@@ -80,6 +80,7 @@ type c10In struct {
 	Tile    *tlog.Tile      `json:"tile,omitempty"`
 	Index   int64           `json:"index,omitempty"`
 	Sizes   []int64         `json:"sizes,omitempty"`
+	Calls   []c10Call       `json:"calls,omitempty"` // op "readseq": successive calls on ONE TileHashReader
 }
 
 type c10Run struct {
@@ -753,11 +754,16 @@ func runC10(c *hx.Ctx) {
 	capPer := 12 * c.Scale
 	seenCat := map[string]int{}
 	slotCat := map[string][]int{}
+	var record func(in c10In, run c10Run, cat string)
 	do := func(in c10In, cat string) c10Run {
 		in.Op = "read"
 		_, run := c10Exec(in, logSize)
 		msg := c10Oracle(in, l, run)
 		c.Check("read-through-tiles-authenticated", msg == "", "", in, msg)
+		record(in, run, cat)
+		return run
+	}
+	record = func(in c10In, run c10Run, cat string) {
 		cls := c10ResultClass(run)
 		c.Count("read:" + cat + ":" + cls)
 		c.Count(fmt.Sprintf("read:h=%d", in.H))
@@ -784,7 +790,6 @@ func runC10(c *hx.Ctx) {
 				cands[slotCat[key][j]] = c10Cand{arg, res, cost, key}
 			}
 		}
-		return run
 	}
 	heights := []int{1, 2, 3, 4, 5, 6, 7, 8}
 	for n := int64(0); n <= int64(maxN); n++ {
@@ -872,6 +877,9 @@ func runC10(c *hx.Ctx) {
 		}
 	}
 
+	// ---- F. several ReadHashes calls on ONE TileHashReader, the fault injected on a later call
+	c10SeqStream(c, l, logSize, maxN, record)
+
 	// correspondence subset within the model's budget (the extracted SHA-256 costs ~1.4 ms per hash)
 	budget := 17000 * c.Scale
 	r.Shuffle(len(cands), func(i, j int) { cands[i], cands[j] = cands[j], cands[i] })
@@ -947,6 +955,18 @@ func replayC10(raw json.RawMessage) (bool, string) {
 		}
 		l, run := c10Exec(in, size)
 		msg = c10Oracle(in, l, run)
+	case "readseq":
+		size := 140
+		if in.N > 140 {
+			size = 1100
+		}
+		l, runs := c10ExecSeq(in.H, in.N, in.Calls, size)
+		for k, run := range runs {
+			if m := c10Oracle(c10CallIn(in.H, in.N, in.Calls[k]), l, run); m != "" {
+				msg = fmt.Sprintf("call %d of %d on one reader: %s", k+1, len(runs), m)
+				break
+			}
+		}
 	case "tfi":
 		t := tlog.TileForIndex(in.H, in.Index)
 		if st, ok := c10SpecTileForIndex(in.H, in.Index); !ok || st != t {
